@@ -9,5 +9,5 @@ rsync -a --exclude .git --exclude __pycache__ /repo/src /repo/pyproject.toml "$s
 ( cd "$scratch" && patch -p1 -s < "$patch" ) || { echo "patch failed"; exit 2; }
 rc=0
 for p in "$@"; do
-  VERIF_REPO="$scratch" PYTHONDONTWRITEBYTECODE=1 /verif/check "$p" ${TIER:+--tier $TIER} | grep -E "VIOLATION|KNOWN-FINDING|clause:|violations=|MACHINERY" | head -${LINES_MAX:-12}
+  VERIF_REPO="$scratch" PYTHONDONTWRITEBYTECODE=1 /verif/check "$p" ${TIER:+--tier $TIER} | grep -E "VIOLATION|KNOWN-FINDING|clause:|violations=|MACHINERY" | cut -c1-400 | head -${LINES_MAX:-12}
 done
